@@ -81,6 +81,9 @@ class Endpoint:
         opts = dict(failByDrop=cfg["failByDrop"], echoCloseCodeReason=cfg["echo"], openHandshakeTimeout=cfg["openTO"],
                     closeHandshakeTimeout=cfg["closeTO"], autoPingInterval=cfg["pingInt"], autoPingTimeout=cfg["pingTO"],
                     autoPingRestartOnAnyTraffic=cfg["restart"])
+        if cfg.get("pingSize"):
+            opts["autoPingSize"] = cfg["pingSize"]           # every legal size of the automatic ping's payload, 12 .. 125
+        self.peer_inside = False
         self.log = []
         if cfg["role"] == "server":
             self.p, self.t = wsx.make_server(self.log, opts=opts)
@@ -262,10 +265,15 @@ class Endpoint:
             rc = rng.choice([0, 1000, 1001, 3000])
             rr = 0 if rc == 0 else rng.choice([0, 1])
             pl = b"" if rc == 0 else struct.pack("!H", rc) + REASONS[rr]
-            self.feed(self.frame(8, pl) + self.frame(rng.choice([1, 2]), b"late") + (self.frame(rng.choice([1, 2]), b"later") if rng.random() < 0.5 else b""))
+            first = self.frame(0, b"late") if self.peer_inside else self.frame(rng.choice([1, 2]), b"late")     # (legal where the peer's stream stands)
+            self.peer_inside = False
+            self.feed(self.frame(8, pl) + first + (self.frame(rng.choice([1, 2]), b"later") if rng.random() < 0.5 else b""))
             self.ev("pclosedata", rc=rc, rr=rr)
         elif name == "pdata":
-            self.feed(self.frame(rng.choice([1, 2]), b"data"))
+            # one data frame of the peer: a whole message, or a (first / further / last) fragment of one - every frame is traffic
+            fin = rng.random() < 0.6
+            self.feed(self.frame(0 if self.peer_inside else 2, b"data", fin=fin))
+            self.peer_inside = not fin
             self.ev("pdata")
         elif name == "pping":
             self.feed(self.frame(9, b"pp"))
@@ -310,7 +318,8 @@ def gen_cfg(rng, profile):
     role = rng.choice(["server", "client"])
     return dict(syncLoss=(profile == "c05" and rng.random() < 0.2), proxy=(role == "client" and rng.random() < 0.25),
                 role=role, failByDrop=rng.random() < 0.5, echo=rng.random() < 0.3,
-                openTO=t[0], closeTO=t[1], dropTO=t[2], pingInt=p[0], pingTO=p[1], restart=p[2])
+                openTO=t[0], closeTO=t[1], dropTO=t[2], pingInt=p[0], pingTO=p[1], restart=p[2],
+                pingSize=rng.choice([0, 0, 12, 125, 47]))
 
 
 def scenario(rng, profile):
